@@ -260,6 +260,11 @@ func (r *runner) run(ctx context.Context, isStream bool, input any, opts ...Opti
 	} else {
 		ctx, input = onGraphStart(ctx, input, isStream)
 		haveOnStart = true
+		// The run continues from the checkpoint and never reads the input it was called with:
+		// close it, otherwise a producer feeding it stays blocked in Send for ever.
+		if sr, ok := input.(streamReader); ok {
+			sr.close()
+		}
 	}
 
 	// Main execution loop.
